@@ -20,7 +20,7 @@ def run(tier, seed):
     from .c17 import add_list
     add_list(rep, "C07")
     rep.explanation = ("Mixed. Deductive: failing or silent leaf rules leave line/level/tokens untouched, successful ones restore level and parentType (frame part of the statement's "
-                       "second sentence, for the leaf rules); DEAD obligations - parentType and tight, the two fields rules may leave changed, are dead at every rule entry: every silent dispatch is dominated by a store to parentType, every read is silent-guarded or preceded by a store (must-assign dataflow over the real source). Bounded: the concatenation law on the real parse over pairs from the line universe with the statement's side conditions.")
-    rep.trusted_base = STD_TRUST
-    rep.assumptions = ["restore postconditions of list/blockquote/table/reference are covered by the bounded law only"]
+                       "second sentence) for the leaf rules, blockquote and list_block: all five line tables, lineMax, blkIndent, listIndent, tight, parentType and level are restored on every exit; DEAD obligations - parentType and tight, the two fields rules may leave changed, are dead at every rule entry: every silent dispatch is dominated by a store to parentType, every read is silent-guarded or preceded by a store (must-assign dataflow over the real source). Bounded: the concatenation law on the real parse over pairs from the line universe with the statement's side conditions.")
+    rep.trusted_base += STD_TRUST
+    rep.assumptions += ["restore postconditions of list/blockquote/table/reference are covered by the bounded law only"]
     return rep
